@@ -6,6 +6,7 @@ package pp
 import (
 	"fmt"
 	"math"
+	"runtime"
 	"strings"
 
 	"github.com/ohler55/slip"
@@ -53,12 +54,25 @@ func Append(b []byte, s *slip.Scope, obj slip.Object) []byte {
 	if sym, ok := obj.(slip.Symbol); ok {
 		obj = resolveSymbol(sym, s)
 	}
-	tree := buildNode(obj, &p)
+	return append(appendTree(b, obj, &p), '\n')
+}
+
+// appendTree lays out obj. If the layout of a special form meets a form that
+// is not well formed, as in (dotimes), obj is written by the printer instead.
+func appendTree(b []byte, obj slip.Object, p *slip.Printer) (out []byte) {
+	defer func() {
+		if r := recover(); r != nil {
+			if _, ok := r.(runtime.Error); !ok {
+				panic(r)
+			}
+			out = p.Append(b, obj, 0)
+		}
+	}()
+	tree := buildNode(obj, p)
 	_ = tree.layout(0)
 	_ = tree.reorg(int(p.RightMargin))
-	b = tree.adjoin(b)
 
-	return append(b, '\n')
+	return tree.adjoin(b)
 }
 
 func resolveSymbol(sym slip.Symbol, s *slip.Scope) slip.Object {
@@ -167,6 +181,23 @@ func buildQNode(obj slip.Object, p *slip.Printer) Node {
 
 func buildCall(sym slip.Symbol, args slip.List, p *slip.Printer) (node Node) {
 	name := strings.ToLower(string(sym))
+	if len(name) == 0 {
+		return newList(append(slip.List{sym}, args...), p, false)
+	}
+	// The layouts for the special forms expect a well formed form. A form
+	// that is not, such as (quote), (lambda), or (defmethod), is data that
+	// happens to start with that symbol and is laid out as a plain call.
+	defer func() {
+		if r := recover(); r != nil {
+			if _, ok := r.(runtime.Error); !ok {
+				panic(r)
+			}
+			node = nil
+		}
+		if node == nil {
+			node = newFun(name, args, p, 1)
+		}
+	}()
 	switch name {
 	case "quote":
 		if 0 < len(args) {
